@@ -1,6 +1,7 @@
 package h
 
 import (
+	"bytes"
 	"crypto/sha256"
 	"encoding/hex"
 	"fmt"
@@ -88,6 +89,20 @@ func MakeBlock(s BlkSpec) Blk {
 		h1 := sha256.Sum256(x)
 		data = h1[:]
 		c = cid.NewCidV1(cid.Raw, sum(data, mh.IDENTITY, -1))
+	case "idp":
+		// inline blocks that look alike: equal length, a long common prefix (not in AllKinds; used by
+		// generator classes that want digests of one width that agree in their leading bytes)
+		data = append([]byte("identity-blk-"), xbytes(s.Seed, max(s.Size, 1))...)
+		c = cid.NewCidV1(cid.Raw, sum(data, mh.IDENTITY, -1))
+	case "fam":
+		// NOT an honest block: a sha2-256 CID whose digest is made up (16 fixed bytes, 16 seeded ones).
+		// Index generation does not hash, so such sections are legitimate input for C03 only.
+		dg := append(bytes.Repeat([]byte{0xab}, 16), xbytes(s.Seed+77, 16)...)
+		m, err := mh.Encode(dg, mh.SHA2_256)
+		if err != nil {
+			panic(err)
+		}
+		c = cid.NewCidV1(cid.Raw, m)
 	default:
 		panic("unknown block kind " + s.Kind)
 	}
